@@ -142,7 +142,15 @@ def decls_from_items(items):
 def run_impl(case):
     """Returns (before-tree, outcome) where outcome is {"out": str} or {"err": class name, "msg": …}."""
     root = make_root(case)
-    keep = list(root.iterate_descendants())  # noqa: F841  keep chained text nodes referenced
+    keep = [root] + list(root.iterate_descendants())  # noqa: F841  keep chained text nodes referenced
+    if case.get("subtree") is not None:
+        # a node that has a parent is serialized on its own: it is the outermost element of that serialization
+        from delb import TagNode, altered_default_filters
+
+        with altered_default_filters():
+            tags = [n for n in root.iterate_descendants() if isinstance(n, TagNode)]
+        if tags:
+            root = tags[case["subtree"] % len(tags)]
     before = trees.extract(root)
     decls = decls_from_items(case["decls"])
     try:
